@@ -103,6 +103,54 @@ func checkPoly(r *ev.Run, p []float64, planted []float64, note string) {
 		r.Violation("RealRoots/panic", fmt.Sprintf("polynomial %v: %s", p, pn), c)
 		return
 	}
+	// the iterator form: the same roots in the same order, and stopping after k of them means exactly k calls
+	{
+		inOrder := numerical.Polynomial(append([]float64{}, p...)).RealRoots()
+		for stop := 1; stop <= len(inOrder); stop++ {
+			var seen []float64
+			numerical.Polynomial(append([]float64{}, p...)).IterRealRoots(func(x float64) bool {
+				seen = append(seen, x)
+				return len(seen) < stop
+			})
+			ok := len(seen) == stop
+			for i := 0; ok && i < stop; i++ {
+				ok = seen[i] == inOrder[i] || (math.IsNaN(seen[i]) && math.IsNaN(inOrder[i]))
+			}
+			if !ok {
+				r.Violation("IterRealRoots/early-stop", fmt.Sprintf("polynomial %v: stopping after %d roots, the callback saw %v; RealRoots gives %v", p, stop, seen, inOrder), c)
+				break
+			}
+		}
+		// the algebra the kernels are built from, against the coefficient formulas
+		pp := numerical.Polynomial(append([]float64{}, p...))
+		d := pp.Derivative()
+		for i := 1; i < len(p); i++ {
+			if i-1 >= len(d) || d[i-1] != float64(i)*p[i] {
+				r.Violation("Polynomial/Derivative", fmt.Sprintf("polynomial %v: derivative %v", p, d), c)
+				break
+			}
+		}
+		if len(d) > len(p)-1 && len(p) > 0 || (len(p) <= 1 && len(d) != 0) {
+			r.Violation("Polynomial/Derivative", fmt.Sprintf("polynomial %v: derivative %v has too many coefficients", p, d), c)
+		}
+		q := numerical.Polynomial{0.5, -2, 1}
+		prod, want := pp.Mul(q), pmul(p, q)
+		sum := pp.Add(q)
+		for _, x := range []float64{-1.5, 0, 0.25, 2} {
+			if len(p) > 0 && !(math.Abs(prod.Eval(x)-peval(want, x)) <= 1e-9*(1+math.Abs(peval(want, x)))) {
+				r.Violation("Polynomial/Mul", fmt.Sprintf("polynomial %v times %v = %v, convolution gives %v", p, q, prod, want), c)
+				break
+			}
+			if !(math.Abs(sum.Eval(x)-(peval(p, x)+peval(q, x))) <= 1e-9*(1+math.Abs(peval(p, x))+math.Abs(peval(q, x)))) {
+				r.Violation("Polynomial/Add", fmt.Sprintf("polynomial %v plus %v = %v", p, q, sum), c)
+				break
+			}
+			if got, w := pp.Scale(-3).Eval(x), -3*peval(p, x); !(math.Abs(got-w) <= 1e-9*(1+math.Abs(w))) {
+				r.Violation("Polynomial/Scale", fmt.Sprintf("polynomial %v scaled by -3 evaluates to %g at %g, want %g", p, got, x, w), c)
+				break
+			}
+		}
+	}
 	sort.Float64s(got)
 	scale := 0.0
 	for _, a := range p {
